@@ -224,3 +224,15 @@ def register(reg):
                            "implies(_i > 0, has_key(self, arg[_i - 1][0]))"],
                    "modifies": ["self._list"]}},
     )
+
+    # ---- EnvironHeaders: read-only view of the CGI-style keys of a WSGI environ
+    EH = reg.model("EnvironHeaders", cls="werkzeug/datastructures/headers.py:EnvironHeaders", fields={"environ": "Dict[str, str]"})
+    reg.spec("cgi_key(key)", "key.upper().replace('-', '_') if key.upper().replace('-', '_') in ('CONTENT_TYPE', 'CONTENT_LENGTH') "
+                             "else 'HTTP_' + key.upper().replace('-', '_')")
+    reg.contract(
+        "werkzeug/datastructures/headers.py:EnvironHeaders._get_key", prop=P, self_model=EH, params={"key": "str"},
+        returns="str", modifies=[], replay="method",
+        ensures=["cgi_key(key) in self.environ and result == self.environ[cgi_key(key)]"],
+        # a missing header is the documented BadRequestKeyError (a KeyError), never a bare KeyError of the dict
+        raises={"BadRequestKeyError": "not (cgi_key(key) in self.environ)"},
+    )
